@@ -109,6 +109,7 @@ class Program:
         self.modules: Dict[str, Module] = {}
         self.all_funcs: List[Func] = []
         self.all_classes: Dict[str, Cls] = {}
+        self.inlined = 0
         self._load()
 
     # ------------------------------------------------------------------ loading
@@ -129,6 +130,9 @@ class Program:
             except SyntaxError as e:
                 raise AnalysisError(f"{rel} does not parse: {e}")
             m = Module(n[:-3], rel, path, src, tree, lines=src.splitlines())
+            # calls of helpers that did not exist when the rules were written are expanded in place (sa/inline.py)
+            from .inline import Inliner
+            self.inlined += Inliner(m.name, tree).run()
             self._index(m)
             self.modules[m.name] = m
 
